@@ -9,12 +9,17 @@
    (name, type, data) -> expiry held by state c, [abs_lru c] the map name -> last use,
    [card m n] says that m has exactly n entries.
 
-   Outside these theorems: std::sync::Mutex and thread schedules.  Every SharedCache
-   method body is one critical section, so a concurrent use is some sequential history;
-   that step is not formalised (the thorough tier hammers one cache from 2..8 threads and
-   checks Inv on the quiescent dump). *)
+   Several threads: SharedCache is Arc<Mutex<Cache>> and every method body is one critical
+   section that reads the clock inside it (read from cache.rs by tools/tables.py,
+   Base/TablesOk.shared_cache_methods_atomic).  Base/Locks.v models threads around one lock
+   as a small-step system whose schedules are ALL event lists; Cache/CacheConcurrent.v
+   instantiates it with the cache model: [C15_concurrent_invariant] and
+   [C15_concurrent_is_history] below hold for every schedule of every number of threads.
+   Outside: that std::sync::Mutex provides the exclusion the model assumes (the thorough
+   tier hammers one real cache from 2..8 threads and checks Inv on the quiescent dump). *)
 From RV Require Import Base.Prelude Name.NameModel Wire.WireTypes
   Cache.CacheFacts Cache.CacheModel Cache.CacheSpec Cache.CacheInsert Cache.CacheCount Cache.CachePrune Cache.CacheProofs.
+From RV Require Base.Locks Cache.CacheConcurrent.
 
 (* the invariant holds initially, is preserved by every operation, hence holds after
    every history; no history reaches a Panic site (usize underflow) or runs out of fuel *)
@@ -116,6 +121,57 @@ Print Assumptions C15_expired_count_tie_independent.
 Theorem C15_tb_first_ok : tie_ok tb_first.
 Proof. exact tb_first_ok. Qed.
 Print Assumptions C15_tb_first_ok.
+
+(* ---- several threads on one SharedCache ---- *)
+(* [CacheConcurrent.crun tb d evs]: the system (clock, cache, mutex state, one program counter per
+   thread, log) after the schedule [evs] -- any list of: time passes, thread t calls a method, t tries
+   to take the mutex, t runs the body it holds the mutex for, t releases -- from an empty cache of
+   desired size d.  After EVERY schedule, hence at every instant of every concurrent use: the
+   representation invariant holds, the desired size is unchanged, the record count equals the number
+   of distinct (name, type, data) entries held, and the same was true of every value the cache has
+   ever had (no body reached a Panic site). *)
+Theorem C15_concurrent_invariant : forall tb, tie_ok tb -> forall d evs,
+  let s := CacheConcurrent.crun tb d evs in
+  Inv (Locks.shared _ _ _ _ s) /\ c_desired (Locks.shared _ _ _ _ s) = d /\
+  card (abs_map (Locks.shared _ _ _ _ s)) (c_size (Locks.shared _ _ _ _ s)) /\
+  Forall (CacheConcurrent.good d) (Locks.hist _ _ _ _ s).
+Proof. exact CacheConcurrent.concurrent_inv. Qed.
+Print Assumptions C15_concurrent_invariant.
+
+(* Linearisability: after every schedule the cache is the state reached by ONE sequential history --
+   the executed method bodies in the order they held the mutex, each preceded by the clock advance up
+   to its instant -- and what each thread was handed back is the result of its call in that history.
+   So every theorem of this file and of Properties/C05.v about histories ([run]) is a theorem about
+   concurrent use. *)
+Theorem C15_concurrent_is_history : forall tb, tie_ok tb -> forall d evs,
+  (forall t o, In (Locks.CallW op Empty_set t o) evs -> CacheConcurrent.is_call o = true) ->
+  let s := CacheConcurrent.crun tb d evs in
+  let ls := rev (Locks.wlog _ _ _ _ s) in
+  exists outs,
+    run tb (CacheConcurrent.ops_of 0 ls) (with_desired_size d) 0
+      = Ok (Locks.shared _ _ _ _ s, Locks.last_time op (option out) 0 ls, outs) /\
+    map Some outs = CacheConcurrent.outs_of ls /\
+    (forall l, In (Locks.WRet cache op Empty_set (option out) l) (Locks.rets _ _ _ _ s) -> In l ls).
+Proof. exact CacheConcurrent.concurrent_is_history. Qed.
+Print Assumptions C15_concurrent_is_history.
+
+(* the mutex really excludes: never two threads inside a body *)
+Theorem C15_concurrent_mutual_exclusion : forall tb d evs t1 t2,
+  let s := CacheConcurrent.crun tb d evs in
+  Locks.holds_w _ _ _ _ (Locks.pcs _ _ _ _ s t1) -> Locks.holds_w _ _ _ _ (Locks.pcs _ _ _ _ s t2) -> t1 = t2.
+Proof.
+  intros tb d evs t1 t2 s H1 H2.
+  exact (proj1 (Locks.mutual_exclusion _ _ _ _ _ _ (with_desired_size d) evs t1 t2 H1) H2).
+Qed.
+Print Assumptions C15_concurrent_mutual_exclusion.
+
+(* a two-thread schedule in which the second thread has to wait for the mutex *)
+Example C15_concurrent_example :
+  let s := CacheConcurrent.crun tb_first 10 CacheConcurrent.ex_sched in
+  length (Locks.wlog _ _ _ _ s) = 2%nat /\ length (Locks.rets _ _ _ _ s) = 2%nat /\
+  map (fun l => (Locks.l_time _ _ l, Locks.l_tid _ _ l)) (rev (Locks.wlog _ _ _ _ s)) = [(5, 1%nat); (10, 2%nat)] /\
+  c_size (Locks.shared _ _ _ _ s) = 1.
+Proof. exact CacheConcurrent.ex_sched_runs. Qed.
 
 (* ---- examples ---- *)
 Definition ex_name (l : N) : dname := {| labels := [[l]; []]; nlen := 3 |}.
